@@ -134,6 +134,18 @@ def apply_sections(body, sections, qual, g):
     inserts = []  # (token index, text)
     lp = None
     for kind, args, text in sections:
+        if kind in ("loop", "loopend") and isinstance(args, tuple):
+            # loop addressed by header text: the first loop at or after the nth match of the pattern
+            if lp is None:
+                lp = rw.loops(body)
+            pat, nth = args
+            ms = rw.find_matches(body, pat)
+            if len(ms) < nth:
+                raise RuleMismatch("%s: loop anchor `%s` #%d not found (%d matches)" % (qual, pat, nth, len(ms)))
+            cand = [k for k, (kw, ob) in enumerate(lp) if kw >= ms[nth - 1][0]]
+            if not cand:
+                raise RuleMismatch("%s: no loop after anchor `%s`" % (qual, pat))
+            args = cand[0] + 1
         if kind == "loop":
             if lp is None:
                 lp = rw.loops(body)
@@ -209,6 +221,10 @@ def parse_fn_block(lines):
                 sections.append(("rw", (words[1], words[3], count), ""))
             elif words[0] == "spec":
                 cur = ["spec", None, ""]
+            elif words[0] == "loop" and not words[1].isdigit():
+                cur = ["loop", (words[1], int(words[2]) if len(words) > 2 else 1), ""]
+            elif words[0] == "loopend" and not words[1].isdigit():
+                cur = ["loopend", (words[1], int(words[2]) if len(words) > 2 else 1), ""]
             elif words[0] == "loop":
                 cur = ["loop", int(words[1]), ""]
             elif words[0] == "tail":
